@@ -345,7 +345,8 @@ def shape_cases(draw):
               "location": float(x0), "width": float(fwhm)}
         if draw(st.booleans()):
             sh["type"] = "skewed-gaussian"
-            b = draw(st.one_of(_log_uniform(1e-9, 1e-6), _log_uniform(1e-8, 1e-2), _log_uniform(1e-2, 20.0), st.sampled_from([0.5, 0.25, 1.0, 2.0, 1.2e-8, 0.9e-8])))
+            b = draw(st.one_of(_log_uniform(1e-9, 1e-6), _log_uniform(1e-8, 1e-2), _log_uniform(1e-2, 20.0), st.sampled_from([0.5, 0.25, 1.0, 2.0, 1.2e-8, 0.9e-8]),
+                                _log_uniform(1e-18, 1e-9), st.sampled_from([1e-12, 1e-15, 1e-17, 1e-30, 1e-300])))
             sh["skewness"] = float(b * draw(st.sampled_from([1.0, -1.0])))
         shapes.append(sh)
         # targets: location, half maximum, generic points
@@ -603,6 +604,25 @@ def prop_osc_irf(case):
     _decay_position_check(case, dm, times, _cl(kind, "decay_position_formula"))
     mat = _code_matrix(case, dm, times, "doas_irf" if kind == "doas" else "pfid")
     n = len(case["osc"])
+    # a refused evaluation leaves no trace: an evaluation of the same shape that the code gives up half-way (floating point
+    # errors raised, one rate of the other sign, axis far before the pulse) and then the same evaluation again, bit for bit
+    import copy as _copy
+
+    bad = _copy.deepcopy(case)
+    bad["osc"][-1]["gamma"] = -bad["osc"][-1]["gamma"]
+    wmax = max(case["irf"]["width"])
+    refused = False
+    try:
+        _, _, bad_dm = build_time_model(bad)
+        with np.errstate(all="raise"):
+            c0 = float(case["irf"]["center"][0])
+            bad_times = np.linspace(c0 + 10.0 * wmax, c0 - 60.0 * wmax, times.size)  # (descending: the rows written first are the early ones)
+            bad_dm.megacomplex[0].calculate_matrix(bad_dm, np.array(case["gaxis"], dtype=float), bad_times)
+    except Exception:  # noqa: BLE001
+        refused = True
+    again = _code_matrix(case, dm, times, "doas_irf" if kind == "doas" else "pfid")
+    check(np.array_equal(mat, again, equal_nan=True), _cl(kind, "depends_on_an_earlier_refused_evaluation"),
+          lambda: f"refused={refused}: max difference {np.nanmax(np.abs(mat - again)):.3e}")
     mat_i = mat[None] if mat.ndim == 2 else mat
     region = in_d8_region(case)
     ref, scale, trunc, before, cond = _osc_reference(case, times)
@@ -663,6 +683,8 @@ def prop_osc_irf(case):
         worst = float(np.max(np.abs(mat_i[far]) / (abs(C) * np.broadcast_to(sc2, mat_i.shape)[far] + 1e-300)))
         check(worst <= TOL_VANISH, _cl(kind, "vanish_before_pulse" if kind == "doas" else "vanish_after_pulse"), lambda: f"{worst:.3e} of the column scale")
         tags.append("far_side_point")
+    if refused:
+        tags.append("after_refused_evaluation")
     nontrivial = shifted or "dispersion" in tags or n >= 2
     return {"nontrivial": bool(nontrivial), "tags": tags}
 
